@@ -1,6 +1,6 @@
 """C07  Refinement never loses or mis-associates data and selects what it documents."""
 import re
-from tsg.facts import DB, strip, txt, callee, call_args, call_object, walk, const_val, callee_node
+from tsg.facts import DB, strip, txt, callee, call_args, call_object, walk, const_val, callee_node, short
 from tsg.flow import var_of, base_var, cond_edges_dominating, is_reachable
 from tsg.typestate import member_writes, member_of, must_pass_after, must_pass_before
 from tsg.effects import Effects, is_this_call
@@ -464,6 +464,27 @@ def run(chk):
                "early return under tolerance == 0: %s, map filled with 1: %s" % (early, fill1))
         okops = set(ops) <= {"<=", ">"} and bool(ops)
         chk.ob("C07-D6.tolerance", k, "equality with the tolerance counts as small", okops, fn.where, "comparison operators against tolerance: %s" % (ops,), "only `x <= tolerance` / `x > tolerance`")
+
+    # ------------------------------------------------------------------ D8 a validated selection parameter is consumed on every branch
+    chk.rule("C07-D8.consumed", "the scale correction that the API validates and documents for surplus refinement / surplus-driven construction is handed to the grid class on every "
+                                "dispatch branch that performs the selection (a branch that drops it selects the uncorrected set)")
+    ncons = 0
+    for f in db.all_functions(["SparseGrids/TasmanianSparseGrid.cpp"]):
+        if f.cls != "TasGrid::TasmanianSparseGrid":
+            continue
+        sp = next((p_ for p_ in f.params() if p_["name"] == "scale_correction"), None)
+        if sp is None:
+            continue
+        for c in f.calls(into_lambda=False):
+            cal = callee(c) or ""
+            if not cal.startswith("TasGrid::Grid") or short(cal) not in ("setSurplusRefinement", "getCandidateConstructionPoints", "getRefinementCanidates", "removePointsByHierarchicalCoefficient"):
+                continue
+            ncons += 1
+            chk.saw(f)
+            passed = any(x.get("k") == "DeclRefExpr" and x.get("did") == sp["did"] for a in call_args(c) for x in walk(a))
+            chk.ob("C07-D8.consumed", short(f.name) + f.sig, "scale_correction handed to %s" % cal.replace("TasGrid::", ""), passed, f.loc(c),
+                   "" if passed else "the correction is validated by the API and then ignored for this grid family: the selected points are those of the uncorrected rule")
+    chk.floor("C07-D8.consumed", ncons, 3, "dispatch branches of entry points that take a scale correction")
 
     # ------------------------------------------------------------------ D7 strips whose width depends on the selected output
     chk.rule("C07-D7.strip", "a strip of a 2-D view whose width is `(output == -1) ? num_outputs : 1` is subscripted only inside that width: on the single-output edge only entry 0, "
